@@ -14,6 +14,7 @@ pub mod auth;
 pub mod udp;
 pub mod cert;
 pub mod schemepush;
+pub mod close;
 
 pub fn run(args: &Args, log: &Log) -> Result<(), String> {
     match args.driver.as_str() {
@@ -32,6 +33,7 @@ pub fn run(args: &Args, log: &Log) -> Result<(), String> {
         "udp" => udp::run(args, log),
         "cert" => cert::run(args, log),
         "schemepush" => schemepush::run(args, log),
+        "close" => close::run(args, log),
         d => Err(format!("unknown driver {d}")),
     }
 }
